@@ -165,8 +165,8 @@ PROPS = {
     ),
     'C18': dict(
         title='order / history independence, no retention', proj='proj_full', oracle='c18',
-        quick=[S_('probes', nc=1, items=('hint_history', 'pok_forms_bound', 'pok_remarks_c18')), S_('cacheid', nc=8), S_('cache', maxlen=3), S_('modorder'), S_('pokm'), S_('lateattr', nc=1), S_('probes', nc=1, items=('owner_binding',)), S_('redecorate', nc=4)],
-        thorough=[S_('probes', nc=1, items=('hint_history', 'pok_forms_bound', 'pok_remarks_c18')), S_('cacheid', nc=8, count=6000), S_('cache', maxlen=4), S_('modorder'), S_('pokm'), S_('lateattr', nc=1), S_('probes', nc=1, items=('owner_binding',)), S_('redecorate', nc=4)],
+        quick=[S_('probes', nc=1, items=('hint_history', 'pok_forms_bound', 'pok_remarks_c18', 'annotate_bound_cache')), S_('cacheid', nc=8), S_('cache', maxlen=3), S_('modorder'), S_('pokm'), S_('lateattr', nc=1), S_('probes', nc=1, items=('owner_binding',)), S_('redecorate', nc=4)],
+        thorough=[S_('probes', nc=1, items=('hint_history', 'pok_forms_bound', 'pok_remarks_c18', 'annotate_bound_cache')), S_('cacheid', nc=8, count=6000), S_('cache', maxlen=4), S_('modorder'), S_('pokm'), S_('lateattr', nc=1), S_('probes', nc=1, items=('owner_binding',)), S_('redecorate', nc=4)],
         runtime_part='the garbage collector and weakref callbacks (observed through weak references after gc.collect())',
         level_text='The descriptor cache is a heap-reachability model over arbitrary operation histories: no retention with the weak-value dictionary is a theorem (and retention with the '
                    'pinned weak-key one is its refutation, D7, repaired; a bound method stored under itself is retained, retention_selfEntry_refuted, D91, repaired: no_retention_noStore); order independence of stacked modifiers is the theorem prepare_set_ext. Real histories (all of length <= 3/4 over '
